@@ -8,6 +8,7 @@ CONSTANTS
   Coords = {"A", "X"}
   OpKinds = {"CreateStream", "DeleteStream", "CreateGroup", "JoinGroup", "LeaveGroup", "ChangeCoordinator"}
   Variants = {"plain", "custom"}
+  Extras = {}
   MaxOps = 4
   MaxSnaps = 1
   MaxRestarts = 1
